@@ -15,7 +15,8 @@ RULE = ("Randomised scenarios against the real `garden nrepl` TCP server (fresh 
         "eval - an eval that prints a start marker and then loops forever (silently, printing, or inside nested "
         "calls) is interrupted 0..60 ms after its marker has been received, with 0..2 further evals already queued "
         "behind it; (b) interrupt an idle session (all its requests done) and then eval; (c) close a session whose "
-        "eval is running; (d) interrupt one session while another session's eval runs. Oracle: the interrupted eval "
+        "eval is running; (d) interrupt one session while another session's eval runs; (e) interrupt an eval that is "
+        "blocked in a built-in (`shell::run(\"sleep\", [\"6\"])`). Oracle: the interrupted eval "
         "ends within 30 s with status `interrupted` (and `done`); every eval queued behind it, and every eval sent "
         "after an idle interrupt, runs to its normal value and is not reported interrupted; the other session's eval "
         "is unaffected; after `close` the running eval ends within 30 s; every request gets its `done`. "
@@ -51,7 +52,8 @@ def gen(r):
     nsess = r.int(1, 2)
     hard = False
     for _ in range(r.int(2, 6)):
-        k = r.weighted([(5, "interrupt_running"), (3, "idle_then_eval"), (1, "close_running"), (2, "cross_session")])
+        k = r.weighted([(10, "interrupt_running"), (6, "idle_then_eval"), (2, "close_running"), (4, "cross_session"),
+                        (1, "interrupt_blocking")])
         ph = {"k": k, "sess": r.int(0, nsess - 1), "loop": r.int(0, len(LOOPS) - 1), "wait_ms": r.choice([0, 0, 1, 5, 20, 60]),
               "queued": r.choice([0, 0, 1, 2]), "gap_ms": r.choice([0, 0, 1, 10])}
         if k == "interrupt_running" and ph["queued"]:
@@ -177,6 +179,26 @@ def run_scenario(case, ctx) -> Res:
                 if not wait_done(li, 30) or "interrupted" not in status_of(li):
                     return fail("interrupt does not stop the running eval within 30 s",
                                 f"eval {li}: status {status_of(li)}\n--- scenario\n{hist}", classes=cls)
+            elif ph["k"] == "interrupt_blocking":
+                # an eval that is executing a blocking built-in (an external process that sleeps 6 s)
+                li = rid("block")
+                c.send({"op": "eval", "id": li, "session": sess,
+                        "code": f'import "__shell.gdn" as shell\nprintln("{li}-started")\nshell::run("sleep", ["6"])'})
+                if not c.wait_msg(li, lambda m: f"{li}-started" in m.get("out", ""), 60):
+                    return fail("a looping eval never starts", f"--- scenario\n{hist}", classes=cls)
+                time.sleep(0.3)
+                t0 = time.monotonic()
+                ii = rid("int")
+                c.send({"op": "interrupt", "id": ii, "session": sess})
+                done = wait_done(li, 30)
+                took = time.monotonic() - t0
+                if done and "interrupted" not in (status_of(li) or []) and took > 3.0:
+                    return fail("interrupt does not stop an eval blocked in shell::run",
+                                f"eval {li} ended {took:.1f} s after the interrupt with status {status_of(li)} "
+                                f"(the external `sleep 6` ran to its end)\n--- scenario\n{hist}", classes=cls)
+                if not done:
+                    return fail("interrupt does not stop the running eval within 30 s", f"eval {li} (blocking)\n--- scenario\n{hist}",
+                                classes=cls)
             elif ph["k"] == "close_running":
                 li, started = start_loop(sess, ph["loop"])
                 if not started:
